@@ -299,6 +299,68 @@ pub fn run(tier: &str, seed: i64) -> Outcome {
         acc.count("(c) second process printed byte-identical transcripts for all fresh sessions");
     }
     reports.push(SpaceReport { name: "(c) all fresh-engine sessions once more in a second process (different address-space layout and allocator state)".into(), states: 1, exhaustive: true, note: format!("digest {} [{:.1}s]", mine, t1.elapsed().as_secs_f64()) });
+    // (a3) tables that outgrow their initial capacity (a dimension the depth <= 3 searches never reach: they store a few
+    // dozen entries): deep searches of quiet endgames store thousands of entries; a history of such searches, then
+    // ucinewgame, then the measured deep search must still print the fresh engine's transcript
+    {
+        let t4 = std::time::Instant::now();
+        let big: Vec<(&str, u8)> = vec![("8/8/4k3/3p4/3P1K2/8/8/5R2 w - - 0 1", if q { 9 } else { 11 }), ("8/1p4kp/p5p1/8/1P6/P3K1P1/7P/8 w - - 0 1", if q { 8 } else { 10 }), ("8/8/4k3/8/8/3K4/4P3/8 w - - 0 1", if q { 10 } else { 13 })];
+        let mut cases: Vec<(usize, usize)> = vec![];
+        for m in 0..big.len() {
+            for pr in 0..big.len() {
+                cases.push((m, pr));
+            }
+        }
+        let res = par_items(&cases, &|_, (m, pr), acc| {
+            let (mf, md) = big[*m];
+            let (pf, pd) = big[*pr];
+            let measured = vec![format!("position fen {}", mf), format!("go depth {}", md), "wait".to_string()];
+            let fresh = match uci_seq(measured.clone()) {
+                Ok(t) => t,
+                Err(e) => {
+                    acc.violation(format!("c19-large-died|{}", mf), format!("fresh deep session died: {}", e), json::obj(vec![("kind", json::s("c19-large"))]));
+                    return;
+                }
+            };
+            let nodes = fresh.iter().filter_map(|l| l.strip_prefix("info nodes ")).filter_map(|x| x.trim().parse::<u64>().ok()).max().unwrap_or(0);
+            acc.max("entries stored by one deep measured search", nodes);
+            // the prior game: a deep search, one more position of that game, then the reset
+            let mut script = vec![format!("position fen {}", pf), format!("go depth {}", pd), "wait".to_string(), format!("position fen {}", pf), "go depth 2".to_string(), "wait".to_string(), "ucinewgame".to_string()];
+            script.extend(measured.iter().cloned());
+            acc.states += 1;
+            let replay = json::obj(vec![("kind", json::s("c19-large")), ("measured", json::s(mf)), ("prior", json::s(pf))]);
+            match uci_seq(script) {
+                Err(e) => acc.violation(format!("c19-large-died|{}|{}", mf, pf), format!("session died: {}", e), replay),
+                Ok(t) => {
+                    acc.evaluations += 1;
+                    acc.transitions += 1;
+                    // the measured search's lines are the tail of the transcript
+                    let tail: Vec<String> = t[t.len().saturating_sub(fresh.len())..].to_vec();
+                    if tail != fresh {
+                        let k = tail.iter().zip(fresh.iter()).position(|(a, b)| a != b).unwrap_or(0);
+                        acc.violation(format!("c19-large|{}|{}", mf, pf), format!("after `position fen {} ; go depth {} ; wait ; go depth 2 ; wait ; ucinewgame` the search `position fen {} ; go depth {}` (which stores {} entries) prints {:?} at line {} where a fresh engine prints {:?}", pf, pd, mf, md, nodes, tail.get(k), k, fresh.get(k)), replay);
+                    } else {
+                        acc.count("(a3) deep searches (tables beyond the initial capacity) reproduced after a deep prior game and ucinewgame");
+                    }
+                }
+            }
+            // the real binary on the same deep search
+            if *pr == 0 {
+                if let Some(bin) = crate::realbin::real_bin() {
+                    match crate::realbin::transcript(&bin, &measured, std::time::Duration::from_secs(600)) {
+                        Ok(rt) if rt == fresh => acc.count("(a3) deep searches reproduced by the real binary"),
+                        Ok(rt) => {
+                            let k = rt.iter().zip(fresh.iter()).position(|(a, b)| a != b).unwrap_or(rt.len().min(fresh.len()));
+                            acc.violation(format!("c19-large-real|{}", mf), format!("`position fen {} ; go depth {}` on a fresh engine: the real binary prints {:?} at line {} where the in-process engine prints {:?}", mf, md, rt.get(k), k, fresh.get(k)), json::obj(vec![("kind", json::s("c19-large"))]))
+                        }
+                        Err(e) => acc.violation(format!("c19-large-real-died|{}", mf), format!("the real binary failed on `position fen {} ; go depth {}`: {}", mf, md, e), json::obj(vec![("kind", json::s("c19-large"))])),
+                    }
+                }
+            }
+        });
+        reports.push(SpaceReport { name: format!("(a3) large tables: {} deep searches of quiet endgames (depths {:?}) x {} deep prior games, then ucinewgame, against the fresh engine; the same deep searches on the real binary", big.len(), big.iter().map(|x| x.1).collect::<Vec<_>>(), big.len()), states: res.states, exhaustive: true, note: format!("[{:.1}s]", t4.elapsed().as_secs_f64()) });
+        acc.merge(res);
+    }
     // (d) the real binary (release build of the repository itself, hooks off, real stdout): the same fresh sessions
     let t3 = std::time::Instant::now();
     match crate::realbin::real_bin() {
@@ -385,7 +447,7 @@ pub fn replay(j: &J) -> Result<Acc, String> {
             let root = e3::family_roots().into_iter().find(|(n, _)| *n == fam).ok_or("unknown family")?.1;
             family_histories(fam, root, &[1, 2, 3], &[], 0, &mut acc);
         }
-        Some("c19-real") => return Ok(run("quick", 0).acc),
+        Some("c19-real") | Some("c19-large") => return Ok(run("quick", 0).acc),
         Some("c19-process") => {
             let mine = fresh_digest("quick");
             let w = run_workers(&self_exe(), vec![vec!["C19".into(), "quick".into(), "0".into(), "--worker".into()]], 1);
